@@ -547,6 +547,89 @@ impl BigInt {
         to_signed_bytes_le(self)
     }
 //@ end
+
+//@ extract src/bigint.rs :: impl BigInt :: fn from_bytes_be props=C09,C04 label=BigInt_from_bytes_be
+    pub fn from_bytes_be(sign: Sign, bytes: &[u8]) -> /*+*/(r: /*-*/BigInt/*+*/)/*-*/
+//+{
+        ensures r.wfi(), r.iv() == sgn(sign) * (valb(rev8(bytes@), 8, bytes@.len()) as int)
+//+}
+    {
+        BigInt::from_biguint(sign, BigUint::from_bytes_be(bytes))
+    }
+//@ end
+//@ extract src/bigint.rs :: impl BigInt :: fn from_bytes_le props=C09,C04 label=BigInt_from_bytes_le
+    pub fn from_bytes_le(sign: Sign, bytes: &[u8]) -> /*+*/(r: /*-*/BigInt/*+*/)/*-*/
+//+{
+        ensures r.wfi(), r.iv() == sgn(sign) * (valb(bytes@, 8, bytes@.len()) as int)
+//+}
+    {
+        BigInt::from_biguint(sign, BigUint::from_bytes_le(bytes))
+    }
+//@ end
+//@ extract src/bigint.rs :: impl BigInt :: fn to_bytes_be props=C09 label=BigInt_to_bytes_be
+    pub fn to_bytes_be(&self) -> /*+*/(r: /*-*/(Sign, Vec<u8>)/*+*/)/*-*/
+//+{
+        requires self.wfi()
+        ensures r.0 == self.sg(), r.1@.len() >= 1, sgn(r.0) * (valb(rev8(r.1@), 8, r.1@.len()) as int) == self.iv(),
+            self.iv() == 0 ==> r.1@ =~= seq![0u8],
+            self.iv() != 0 ==> r.1@[0] != 0,
+//+}
+    {
+        (self.sign, self.data.to_bytes_be())
+    }
+//@ end
+//@ extract src/bigint.rs :: impl BigInt :: fn to_bytes_le props=C09 label=BigInt_to_bytes_le
+    pub fn to_bytes_le(&self) -> /*+*/(r: /*-*/(Sign, Vec<u8>)/*+*/)/*-*/
+//+{
+        requires self.wfi()
+        ensures r.0 == self.sg(), r.1@.len() >= 1, sgn(r.0) * (valb(r.1@, 8, r.1@.len()) as int) == self.iv(),
+            self.iv() == 0 ==> r.1@ =~= seq![0u8],
+            self.iv() != 0 ==> r.1@[r.1@.len() - 1] != 0,
+//+}
+    {
+        (self.sign, self.data.to_bytes_le())
+    }
+//@ end
+
+    // contract-only re-homing of `impl num_traits::FromBytes / ToBytes for BigInt` (external traits): the signed two's-complement forms
+//@ extract src/bigint.rs :: impl num_traits::FromBytes for BigInt :: fn from_be_bytes tysub=&Self::Bytes=>&[u8] props=C09,C04 label=BigInt_from_be_bytes
+    fn from_be_bytes(bytes: &[u8]) -> /*+*/(r: /*-*/Self/*+*/)/*-*/
+//+{
+        ensures r.wfi(), r.iv() == sval8(rev8(bytes@))
+//+}
+    {
+        Self::from_signed_bytes_be(bytes)
+    }
+//@ end
+//@ extract src/bigint.rs :: impl num_traits::FromBytes for BigInt :: fn from_le_bytes tysub=&Self::Bytes=>&[u8] props=C09,C04 label=BigInt_from_le_bytes
+    fn from_le_bytes(bytes: &[u8]) -> /*+*/(r: /*-*/Self/*+*/)/*-*/
+//+{
+        ensures r.wfi(), r.iv() == sval8(bytes@)
+//+}
+    {
+        Self::from_signed_bytes_le(bytes)
+    }
+//@ end
+//@ extract src/bigint.rs :: impl num_traits::ToBytes for BigInt :: fn to_be_bytes tysub=Self::Bytes=>Vec<u8> props=C09 label=BigInt_to_be_bytes
+    fn to_be_bytes(&self) -> /*+*/(res: /*-*/Vec<u8>/*+*/)/*-*/
+//+{
+        requires self.wfi()
+        ensures res@.len() >= 1, sval8(rev8(res@)) == self.iv(), res@.len() == 1 || !fits8(self.iv(), (res@.len() - 1) as nat)
+//+}
+    {
+        self.to_signed_bytes_be()
+    }
+//@ end
+//@ extract src/bigint.rs :: impl num_traits::ToBytes for BigInt :: fn to_le_bytes tysub=Self::Bytes=>Vec<u8> props=C09 label=BigInt_to_le_bytes
+    fn to_le_bytes(&self) -> /*+*/(res: /*-*/Vec<u8>/*+*/)/*-*/
+//+{
+        requires self.wfi()
+        ensures res@.len() >= 1, sval8(res@) == self.iv(), res@.len() == 1 || !fits8(self.iv(), (res@.len() - 1) as nat)
+//+}
+    {
+        self.to_signed_bytes_le()
+    }
+//@ end
 }
 
 } // mod u
